@@ -1061,6 +1061,31 @@ MUTANTS = [
                     Self::is_query_running_in_scc(caller)?;
                     // defuse the undo""",
          expect="C06.d/query_for/completed-calls-keep-their-dependency"),
+    dict(id="C13.a-write-str-without-length", prop="C13", file="crates/stable_hash/src/lib.rs",
+         old="        self.write_length_prefix(s.len());\n        self.write(s.as_bytes());", new="        self.write(s.as_bytes());",
+         expect="C13.a/length-before-raw-bytes"),
+    dict(id="C13.d-char-truncated-to-a-byte", prop="C13", file="crates/stable_hash/src/lib.rs",
+         old="        state.write_u32(*self as u32);", new="        state.write_u8(*self as u8);",
+         expect="C13.d/no-narrowing-cast-in-a-hash-body"),
+    dict(id="C13.b-hashmap-key-and-value-hashed-separately", prop="C13", file="crates/stable_hash/src/lib.rs",
+         old="""            combined = combined.wrapping_add(state.sub_hash(&mut |sub| {
+                key.stable_hash(sub);
+                value.stable_hash(sub);
+            }));""", new="""            combined = combined.wrapping_add(state.sub_hash(&mut |sub| {
+                key.stable_hash(sub);
+            }));
+            combined = combined.wrapping_add(state.sub_hash(&mut |sub| {
+                value.stable_hash(sub);
+            }));""",
+         expect="C13.b/order-independent/HashMap<K, V, B>"),
+    dict(id="C13.a-cow-hashes-its-variant", prop="C13", file="crates/stable_hash/src/lib.rs",
+         old="impl<T: StableHash + Clone> StableHash for std::borrow::Cow<'_, T> {\n    fn stable_hash<H: StableHasher + ?Sized>(&self, state: &mut H) {\n",
+         new="impl<T: StableHash + Clone> StableHash for std::borrow::Cow<'_, T> {\n    fn stable_hash<H: StableHasher + ?Sized>(&self, state: &mut H) {\n        state.write_u8(u8::from(matches!(self, std::borrow::Cow::Owned(_))));\n",
+         expect="C13.a/discriminant-before-alternation/Cow"),
+    dict(id="C13.a-hashset-len-not-hashed", prop="C13", file="crates/stable_hash/src/lib.rs",
+         old="        self.len().stable_hash(state);\n        let mut combined = H::Hash::default();\n\n        for value in self {",
+         new="        let mut combined = H::Hash::default();\n\n        for value in self {", nth=0,
+         expect="C13.a/length-before-repetition/HashSet"),
     # ------------------------------------------------------------------ C09.f (D5)
     dict(id="C09.f-D5-fold-heap-in-arbitrary-order", prop="C09", file=ST + "key_of_set_map/cache.rs",
          old="""        let mut ordered = log.iter().collect::<Vec<_>>();
